@@ -3,18 +3,27 @@
 # builds the harness against /repo's current working tree (path dependencies) and runs one check.
 # exit 0 = property held on everything explored; 1 = VIOLATION; 2 = machinery error (never a verdict)
 set -u
-cd "$(dirname "$0")/harness" || exit 2
+V="$(cd "$(dirname "$0")" && pwd)"
+export VERIF_DIR="$V"
 export CARGO_NET_OFFLINE=true
-mkdir -p /verif/.cache
-LOG=/verif/.cache/build.log
+mkdir -p "$V/.cache"
+LOG="$V/.cache/build.log"
+cd "$V/harness" || exit 2
+[ -f Cargo.lock ] || cp /repo/Cargo.lock Cargo.lock
 ( flock 9
   if ! cargo build --offline >"$LOG" 2>&1; then
     echo "MACHINERY-ERROR: harness build failed (see $LOG)" >&2
     tail -40 "$LOG" >&2
     exit 2
   fi
-) 9>/verif/.cache/build.lock || exit 2
-BIN=/verif/.cache/target/debug/cte-mc
-cd /verif
+  # run from a private copy so that a concurrent rebuild cannot swap the binary under a running check
+  mkdir -p "$V/.cache/bin"
+  cp -f "$V/.cache/target/debug/cte-mc" "$V/.cache/bin/cte-mc.$$"
+) 9>"$V/.cache/build.lock" || exit 2
+BIN="$V/.cache/bin/cte-mc.$$"
+cd "$V"
 ulimit -c 0
-exec "$BIN" "$@"
+"$BIN" "$@"
+code=$?
+rm -f "$BIN"
+exit $code
